@@ -159,3 +159,12 @@ reg('C06', 'exploration',
     'threads with a 1 microsecond switch interval; each instance\'s trace (records, record_number, last_record, error context, '
     'file bytes) must equal its solo trace. The run is inconclusive unless thread alternations were actually observed.',
     'Trusts vmon/ref/codec.py and vmon/ref/blocking.py. Each thread owns its files and message objects. Per-thread step counters.')
+
+reg('C18', 'exploration',
+    'runtime monitor: real IpmParamReader and the CSV tool run on synthetic extract files built by placing generated column values at configured positions; returned dicts/CSV compared with the generated values',
+    'Extract files with 1..6 tables (the four packaged layouts and generated contiguous / gapped / single-column layouts, including '
+    'table ids that differ only in their last characters), random index assignments (also two sub-ids for one table), 0..40 '
+    'rows per table interleaved, unindexed / unconfigured noise rows and per-table trailers, x {compressed, expanded} x {latin_1, '
+    'cp500} x {VBS, 1014}, every table of every file requested through the class or the CSV tool; compressed and expanded must '
+    'agree on every column; missing index trailer / unconfigured table must raise MciIpmDataError.',
+    'Trusts vmon/ref/param.py (validated against the literal rows in the repository tests), vmon/ref/blocking.py and the csv module.')
